@@ -965,7 +965,19 @@ func (tree *MutableTree) DeleteVersionsFrom(fromVersion int64) error {
 		return err
 	}
 
-	return tree.ndb.Commit()
+	if err := tree.ndb.Commit(); err != nil {
+		return err
+	}
+
+	// The fast index still describes the deleted history and has been marked as not built. It is
+	// rebuilt here, as LoadVersionForOverwriting does: otherwise the next SaveVersion of this tree
+	// would add its changes to the stale entries and label the result as current.
+	if !tree.skipFastStorageUpgrade {
+		if _, err := tree.enableFastStorageAndCommitIfNotEnabled(); err != nil {
+			return err
+		}
+	}
+	return nil
 }
 
 // Rotate right and return the new node and orphan.
